@@ -22,6 +22,8 @@ structure STxn where
   beginIdx : Nat
   writes : List (Key × Option Val) := []
   readKeys : List Key := []
+  /-- one entry per scan of an update transaction: the keys its own pending writes shadowed then -/
+  scans : List (List Key) := []
   done : Bool := false
 
 structure Spec where
@@ -55,6 +57,7 @@ def setCfg (c : MvccCfg) (kv : String) : Option MvccCfg :=
     | "oracle.intentFinal" => do let b ← boolOfString? v; pure { c with intentFinal := b }
     | "oracle.intentDelGuard" => do let b ← boolOfString? v; pure { c with intentDelGuard := b }
     | "txnit.trackAll" => do let b ← boolOfString? v; pure { c with scanTrackAll := b }
+    | "txnit.tracksRange" => do let b ← boolOfString? v; pure { c with scanTracksRange := b }
     | "oracle.seedOp" => do let o ← CmpOp.ofString? v; pure { c with seedOp := o }
     | "oracle.recordsCommit" => do let b ← boolOfString? v; pure { c with recordsCommit := b }
     | "oracle.pruneOp" => do let o ← CmpOp.ofString? v; pure { c with pruneOp := o }
@@ -121,8 +124,11 @@ def specCommit (prop : String) (sp : Spec) (id : Nat) (mout : Out) (mts : Nat) (
         let spDone := sPut sp id { t with done := true }
         if t.writes.isEmpty then (spDone, "ok")
         else if prop != "C04" &&
-            sp.history.any (fun h => decide (h.1 ≥ t.beginIdx) && h.2.any (fun k => t.readKeys.contains k)) then
-          -- C03: a later commit wrote a key this transaction read from its snapshot
+            sp.history.any (fun h => decide (h.1 ≥ t.beginIdx) &&
+              (h.2.any (fun k => t.readKeys.contains k) ||
+               t.scans.any (fun own => h.2.any (fun k => !own.contains k)))) then
+          -- C03: a later commit wrote a key this transaction read from its snapshot, or a key inside
+          -- a range it scanned (unbounded scans: any key its own pending writes did not shadow then)
           -- (C04 runs do not judge conflict detection: only atomicity and versions)
           (spDone, "conflict")
         else
@@ -189,7 +195,9 @@ def specStep (prop : String) (sp : Spec) (op : Op) (mout : Out) (mts : Nat) : Sp
                                              | some v => some (p.1, v)
                                              | none => none)
         let sorted := live.foldr insPair []
-        let t' := if t.update then { t with readKeys := sorted.map (·.1) ++ t.readKeys } else t
+        let t' := if t.update then
+            { t with readKeys := sorted.map (·.1) ++ t.readKeys, scans := t.writes.map (·.1) :: t.scans }
+          else t
         (sPut sp id t', outStr (.scanned sorted))
   | .reopen =>
     -- a reopen ends every transaction; read timestamps of the old instance no longer count
